@@ -699,13 +699,27 @@ func (env *SpecEnv) call(x *SExpr) Value {
 				av = ptrFromTerm(sc.T, et, sc.Typ)
 			}
 		}
+		if sc, isS := av.(Scalar); isS {
+			// a pointer seen as a heap reference (the function's own parameter): its array / index are
+			// whatever the caller's pointer has - uninterpreted projections of the reference
+			if _, isPtr := sc.Typ.Underlying().(*types.Pointer); isPtr {
+				if x.Name == "parr" {
+					return mathInt(mkApp("ptr!arr", SInt, sc.T))
+				}
+				return mathInt(mkApp("ptr!idx", SInt, sc.T))
+			}
+		}
 		pv, ok := av.(PtrVal)
 		if !ok {
-			env.fail(x, x.Name+"(interior pointer)")
+			env.fail(x, x.Name+"(pointer)")
 		}
 		ml, ok := pv.Loc.(*MemLoc)
 		if !ok {
-			env.fail(x, x.Name+"(interior pointer)")
+			// pointer to a local variable or to a heap field: not an element of any backing array
+			if x.Name == "parr" {
+				return mathInt(mkInt64(-1))
+			}
+			return mathInt(tZero)
 		}
 		if x.Name == "parr" {
 			return mathInt(ml.Arr)
